@@ -1186,3 +1186,25 @@ package ro
 //@   binds status destination
 //@   track destination.*
 //@   ensures [completes-only-when-every-source-is-done|C05] iff(called(destination.CompleteWithContext), loaded(status) == 0)
+
+// fourth batch
+
+//@ func Future$1$1
+//@   note the goroutine of Future: the factory runs once; its value then completion, or its error
+//@   props C04 C07 C09
+//@   binds factory destination ctx
+//@   maypanic
+//@   track callfn.factory destination.*
+//@   ensures [value-then-completion|C04] !panics && res(callfn.factory, 1) == nil ==> trace(callfn.factory(), destination.NextWithContext(ctx, res(callfn.factory, 0)), destination.CompleteWithContext(ctx))
+//@   ensures [error-ends-the-stream|C04,C07] !panics && res(callfn.factory, 1) != nil ==> trace(callfn.factory(), destination.ErrorWithContext(ctx, res(callfn.factory, 1)))
+
+//@ operator BufferWithTimeOrCount
+//@   props C04 C16 C05
+//@   note sequential-interleaving semantics; the buffer is the machine state: a value is appended, a full buffer or a tick flushes it whole (also when empty), completion flushes then completes
+//@   requires size >= 1
+//@   alias tick=Interval()
+//@   on next@source(ctx, value) when len(buffer) + 1 >= size : emits Next(ctx, appended(buffer, value))
+//@   on next@source(ctx, value) when len(buffer) + 1 < size : emits ; post len(buffer') == len(buffer) + 1 && buffer'[len(buffer)] == value && forall(j, 0, len(buffer), buffer'[j] == buffer[j])
+//@   on complete@source(ctx) : emits Next(ctx, buffer), Complete(ctx)
+//@   on next@tick(ctx, value) : emits Next(ctx, buffer)
+//@   on complete@tick(ctx) : emits Next(ctx, buffer), Complete(ctx)
